@@ -1,5 +1,7 @@
 import CkptVerif.Proofs.TopK
 import CkptVerif.Proofs.MultistageE2E
+import CkptVerif.Proofs.MultistageLabels
+import CkptVerif.Proofs.StepBridges
 /-!
 # C14 — Multistage RAM/disk split changes only labels and minimises disk traffic
 
@@ -44,5 +46,18 @@ theorem C14_allocation_optimal (N ram disk : Nat) (traj : Traj) (w : List Nat) (
   allocate_optimal N ram disk traj w alloc h R hR hlen hlt
 
 example : allocate 6 2 2 .revolve = some ([2, 2, 2, 3], [.ram, .disk, .disk, .ram]) := by decide
+
+end Ckpt
+
+namespace Ckpt
+/-! ### the stream is independent of the split up to labels; one storage per stack position -/
+
+/-- equal totals ⇒ equal streams after erasing RAM/DISK labels -/
+alias C14_erase := GW.multistage_erase
+/-- every write/copy/move at stack position `d` names `storage[d]`, the counts respect the
+declared units -/
+alias C14_depth := GW.multistage_labelsOk
+/-- the number of forward steps does not depend on the split (nor on the trajectory) -/
+alias C14_steps_split_indep := GW.multistage_fwdSteps_split_indep
 
 end Ckpt
